@@ -181,9 +181,17 @@ ROOT = z3.Function("coordinate_root", I, ArrS, R)  # root of t -> H(i, v[i := t]
 WID = z3.Function("bracket_width", I, R)  # ghost: width of the adapted bracket of coordinate i's search
 
 
+def trunc_int(e):
+    """conversion of a real to an integer dtype: truncation toward zero"""
+    e = to_real(e)
+    return z3.ToReal(z3.If(e >= 0, z3.ToInt(e), -z3.ToInt(-e)))
+
+
 class Vec1:
-    def __init__(self, arr):
-        self.arr = arr
+    """rank-1 array; int_dtype: an integer-typed array truncates every value stored into it (JAX .at[].set casts to the array dtype)"""
+
+    def __init__(self, arr, int_dtype=False):
+        self.arr, self.int_dtype = arr, int_dtype
 
     def __getitem__(self, i):
         return SV(z3.Select(self.arr, lift(i)))
@@ -196,7 +204,8 @@ class Vec1:
             def __getitem__(self, i):
                 class S:
                     def set(self_, v):
-                        return Vec1(z3.Store(me.arr, lift(i), to_real(lift(v))))
+                        val = to_real(lift(v))
+                        return Vec1(z3.Store(me.arr, lift(i), trunc_int(val) if me.int_dtype else val), me.int_dtype)
                 return S()
         return At()
 
@@ -205,11 +214,24 @@ class Vec1:
 def autoregressive_driver(ctx):
     """lax.scan over the coordinates: after k steps, every coordinate j < k is within the search tolerance of the root of ITS equation
     given the already-found prefix (the triangular precondition makes that root independent of the not-yet-set coordinates)."""
-    it = ctx.interp
+    _driver(ctx, ctx.interp, False)
+    _driver(ctx, ctx.new_interp(), True)
+
+
+def _driver(ctx, it, int_bounds):
+    """int_bounds: the user passes integer-typed bounds (lower=-10, upper=10): nothing may be rounded to the bounds' dtype"""
     fnq = f"{MOD}._autoregressive_bisection_search"
     props = ["C10", "C01"]
     length, maxit = z3.Ints("length max_iter")
-    lo0, hi0, tol = z3.Reals("lower upper tol")
+    tol = z3.Real("tol")
+    if int_bounds:
+        lo_i, hi_i = z3.Ints("lower upper")
+        lo0, hi0 = z3.ToReal(lo_i), z3.ToReal(hi_i)
+        lo_sv, hi_sv = SV(lo_i), SV(hi_i)
+    else:
+        lo0, hi0 = z3.Reals("lower upper")
+        lo_sv, hi_sv = SV(lo0), SV(hi0)
+    TAG = "[int_bounds]" if int_bounds else ""
     calls = []
 
     def close(j, v, arr):
@@ -226,7 +248,14 @@ def autoregressive_driver(ctx):
         return (SV(r), SV(it.fresh("adapt_it", "int")), SV(it.fresh("iters", "int")))
 
     it.global_overrides[MOD] = {"_bisection_search": bisect_contract}
-    it.lib.overrides["jax.numpy.full"] = lambda n_, v: Vec1(z3.K(I, to_real(lift(v))))
+    from fjvc.values import DType
+
+    def full(n_, v, dtype=None):
+        as_int = dtype == DType("int") or (dtype is None and isinstance(v, SV) and v.is_int())
+        val = to_real(lift(v))
+        return Vec1(z3.K(I, trunc_int(val) if as_int else val), as_int)
+
+    it.lib.overrides["jax.numpy.full"] = full
     j = z3.Int("j")
 
     def inv(k, st, init=None):
@@ -235,7 +264,7 @@ def autoregressive_driver(ctx):
         return z3.And(k >= 0, k <= length, lift(i) == k, z3.Implies(z3.And(j >= 0, j < k), close(j, z3.Select(y.arr, j), y.arr)))
 
     def havoc(k, init):
-        return (Vec1(z3.Array(f"y!{it.fresh_counter}", I, R)), SV(it.fresh("i", "int")))
+        return (Vec1(z3.Array(f"y!{it.fresh_counter}", I, R), getattr(init[0], "int_dtype", False)), SV(it.fresh("i", "int")))
 
     it.loop_specs[(fnq, "lax.scan#0")] = LoopSpec(inv, havoc)
 
@@ -246,9 +275,9 @@ def autoregressive_driver(ctx):
         return Out()
 
     fn = it.repo_function(fnq)
-    paths = it.explore(lambda: fn(afn, lower=SV(lo0), upper=SV(hi0), tol=SV(tol), length=SV(length), max_iter=SV(maxit)))
+    paths = it.explore(lambda: fn(afn, lower=lo_sv, upper=hi_sv, tol=SV(tol), length=SV(length), max_iter=SV(maxit)))
     normal = [p for p in paths if p.outcome == "return"]
-    ctx.oblige("C10/_autoregressive_bisection_search/struct/single_path", len(paths) == 1 and len(normal) == 1, [], props, kind="struct", fn=fnq)
+    ctx.oblige(f"C10/_autoregressive_bisection_search{TAG}/struct/single_path", len(paths) == 1 and len(normal) == 1, [], props, kind="struct", fn=fnq)
     if len(normal) != 1:
         return
     p = normal[0]
@@ -259,7 +288,7 @@ def autoregressive_driver(ctx):
     for cinfo in calls:
         t, probe = cinfo["t"], cinfo["probe"]
         facts.append(dict(cinfo))
-    ctx.oblige("C10/_autoregressive_bisection_search/struct/one_scalar_search_per_coordinate", ok_calls, [], props, kind="struct", fn=fnq)
+    ctx.oblige(f"C10/_autoregressive_bisection_search{TAG}/struct/one_scalar_search_per_coordinate", ok_calls, [], props, kind="struct", fn=fnq)
     # triangular precondition (instances): ROOT(j, .) and H(j, .) depend on entries <= j only; ROOT is the root of the j-th component in its own coordinate
     def tri_inst(asserts):
         from fjvc.core import apps_of
@@ -280,7 +309,7 @@ def autoregressive_driver(ctx):
     step_facts = []
     for cinfo in calls:
         step_facts.append(cinfo)
-    rp = dict(kind="bisection", fn="_autoregressive_bisection_search", vars=dict(lo0=lo0, hi0=hi0, tol=tol, max_iter=maxit, r=lo0))
+    rp = dict(kind="bisection", fn="_autoregressive_bisection_search", int_bounds=int_bounds, vars=dict(lo0=lo0, hi0=hi0, tol=tol, max_iter=maxit, r=lo0))
     # obligations emitted at the scan cut; the step obligation needs the callee's postcondition for the call made in that step
     for em in p.obligations:
         hyps = list(pre) + em.hyps
@@ -289,12 +318,12 @@ def autoregressive_driver(ctx):
                 # callee post: |root - r*| bounded where r* is the root of the probed function; identify r* with ROOT(k, y) via the probe
                 kterm = None
                 hyps.append(z3.ForAll([cinfo["t"]], cinfo["probe"] == cinfo["probe"]))
-        ctx.oblige("C10/" + em.oid.replace(MOD + ".", ""), em.goal, hyps + [f for f in _callee_posts(calls, close)], props, kind=em.kind, fn=fnq, replay=rp, inst=inst)
+        ctx.oblige("C10/" + em.oid.replace(MOD + ".", "").replace("_autoregressive_bisection_search", "_autoregressive_bisection_search" + TAG), em.goal, hyps + [f for f in _callee_posts(calls, close)], props, kind=em.kind, fn=fnq, replay=rp, inst=inst)
     # arguments forwarded unchanged to every scalar search
     for n_, cinfo in enumerate(calls):
-        ctx.oblige(f"C10/_autoregressive_bisection_search/post/search_arguments_forwarded#{n_}", z3.And(cinfo["lower"] == lo0, cinfo["upper"] == hi0, cinfo["tol"] == tol, cinfo["max_iter"] == maxit), cinfo["cond"], props, fn=fnq)
+        ctx.oblige(f"C10/_autoregressive_bisection_search{TAG}/post/search_arguments_forwarded#{n_}", z3.And(cinfo["lower"] == lo0, cinfo["upper"] == hi0, cinfo["tol"] == tol, cinfo["max_iter"] == maxit), cinfo["cond"], props, fn=fnq)
     root_vec = p.value
-    ctx.oblige("C10/_autoregressive_bisection_search/post/every_coordinate_within_tolerance_of_its_root_given_the_prefix",
+    ctx.oblige(f"C10/_autoregressive_bisection_search{TAG}/post/every_coordinate_within_tolerance_of_its_root_given_the_prefix",
                z3.Implies(z3.And(j >= 0, j < length), close(j, z3.Select(root_vec.arr, j), root_vec.arr)), pre + p.cond, props, fn=fnq, replay=rp, inst=inst)
 
 
